@@ -412,12 +412,16 @@ def c06(work, tier, seed, replay):
         pre = [x for x in seqfam.tofu_steps(db0_of(HIST[scen]), 2) if x["log"] == "l1"] if HIST[scen] == "s1" else []
         for k_ in range(len(pre), len(pre) + len(ups)):
             hists.append({"id": "B%s%d" % (scen[1:], k_), "busycommit": k_ + 1, "steps": pre + ups})
+    # checkpoints of several database pages (the most signature lines a note may carry): one COMMIT is several page writes
+    def big(op_):
+        return {"op": "update", "log": op_["log"], "req": dict(op_["req"], extra=OPS_BASE["MaxLines"] - 1 - OPS_BASE["NWitKeys"])}
+    hists.append({"id": "P_TofuGrowBig", "steps": [big(op) for op in progs["H_TofuGrow"][0] if op["kind"] == "update"] + [big(op) for op in progs["H_TofuRefresh"][0][1:] if op["kind"] == "update"]})
     hp, tp = work.path("hists.jsonl"), work.path("crash.ndjson")
     write_runs(hp, OPS_PARAMS, hists)
     hp_prod = work.path("hists-prod.jsonl")
     write_runs(hp_prod, OPS_PARAMS, [h_ for h_ in hists if not h_.get("legacy") and not h_.get("busycommit")])
     nrand = 20 if tier == "quick" else 400
-    o, dt = run_driver(["crash", "-in", hp, "-out", tp, "-dir", work.sub("db"), "-random", str(nrand), "-seed", str(seed), "-workers", str(NCPU)], timeout=3000)
+    o, dt = run_driver(["crash", "-in", hp, "-out", tp, "-dir", work.sub("db"), "-random", str(nrand), "-seed", str(seed), "-workers", str(NCPU), "-preload", build_preload()], timeout=3000)
     rep.notes.append(o.strip())
     m = re.search(r"CRASH runs=(\d+) boundaries=(\d+)", o)
     # ---- the production binary (cmd/omniwitness: flags, sql.Open(--db_file), SetMaxOpenConns(1), omniwitness.Main) is SIGKILLed at a random instant
@@ -442,6 +446,8 @@ def c06(work, tier, seed, replay):
     rep.cov["traces_validated_against_impl"] = len(rec)
     rep.cov["evaluations"] = len(rec)
     rep.cov["driver_boundaries"] = int(m.group(2)) if m else 0
+    mw = re.search(r"write_syscalls=(\d+)", o)
+    rep.cov["kill_points_at_write_system_calls_on_the_database_file"] = int(mw.group(1)) if mw else 0
     rep.cov["random_instant_kills"] = sum(1 for e in crashes if e["point"] < 0)
     rep.cov["model_crash_states"] = model_crash_states
     # distinct = distinct (history, kill boundary) plus distinct outcomes of random-instant kills
@@ -456,7 +462,7 @@ def c06(work, tier, seed, replay):
         un = [e for e in evs if e["e"] == "upd" and not e["acked"]]
         inflight += 1 if un else 0
         rc = [e for e in evs if e["e"] == "recover"][0]
-        d.add(json.dumps([run.split("@")[0], cr["point"] if cr["point"] >= 0 else [len(acks), rc["stored"]]]))
+        d.add(json.dumps([run.split("@")[0], cr["point"] if cr["point"] >= 0 else ([cr.get("op")] if cr["point"] == -2 else [len(acks), rc["stored"]])]))
     rep.cov["distinct_nontrivial"] = len(d)
     rep.cov["kills_with_an_update_in_flight"] = inflight
     newer = 0
